@@ -3,7 +3,7 @@
 set -e
 U=$1; F=$2; FROM=$3; TO=$4
 D=$(mktemp -d /tmp/mutsrc.XXXX)
-rsync -a --include="*/" --include="*.rs" --exclude="*" /repo/fe2o3-amqp /repo/fe2o3-amqp-types /repo/serde_amqp $D/ --exclude target
+SRC=${REPO:-/repo}; rsync -a --include="*/" --include="*.rs" --exclude="*" $SRC/fe2o3-amqp $SRC/fe2o3-amqp-types $SRC/serde_amqp $D/ --exclude target
 python3 - "$D/$F" "$FROM" "$TO" <<'PY'
 import sys,re
 p,f,t=sys.argv[1:4]
